@@ -9,6 +9,7 @@ func init() {
 	vHarnesses["VerifC05Precision"] = VerifC05Precision
 	vHarnesses["VerifC05Nulls"] = VerifC05Nulls
 	vHarnesses["VerifC05Keys2"] = VerifC05Keys2
+	vHarnesses["VerifC05KeyArr"] = VerifC05KeyArr
 }
 
 // VerifC05Nulls: documents with null members / elements under every option set, merge included
@@ -162,4 +163,38 @@ func VerifC05Keys2() {
 	vObserve("equals", eq)
 	vAssert((len(d) == 0) == eq, "diff emptiness disagrees with Equals (two set keys)")
 	vCover("c05.keys2")
+}
+
+// VerifC05KeyArr: SetKeys("id") where the identifying value is itself a container (a two-element
+// array, bare or inside an object): under the set reading [x,y] and [y,x] are the same identity,
+// so documents differing only in that spelling are Equal and must diff to nothing; Equals is
+// checked against the reference equality too.
+func VerifC05KeyArr() {
+	mk := func() jsonArray {
+		arr := make(jsonArray, vChoice(vParam("N", 1)+1))
+		for i := range arr {
+			var id JsonNode = jsonArray{vNum(), vNum()}
+			if vChoice(2) == 1 {
+				id = jsonObject{"t": id}
+			}
+			o := jsonObject{"id": id}
+			if vChoice(2) == 1 {
+				o["v"] = vNum()
+			}
+			arr[i] = o
+		}
+		return arr
+	}
+	a, b := mk(), mk()
+	opts := []Option{SetKeys("id")}
+	if vKnown("hash.alias") {
+		vAssumeNoHashAlias(a, b)
+	}
+	d := a.Diff(b, opts...)
+	eq := a.Equals(b, opts...)
+	vObserve("empty", len(d) == 0)
+	vObserve("equals", eq)
+	vAssert(eq == refEq(a, b, modeSet, 0), "Equals under SetKeys disagrees with the reference set equality")
+	vAssert((len(d) == 0) == eq, "diff emptiness disagrees with Equals (container-valued set key)")
+	vCover("c05.keyarr")
 }
